@@ -14,6 +14,7 @@ import (
 
 	"github.com/relab/hotstuff"
 	"github.com/relab/hotstuff/core"
+	"github.com/relab/hotstuff/security/crypto"
 )
 
 func TestVerifC20(t *testing.T) {
@@ -72,5 +73,123 @@ func TestVerifC20(t *testing.T) {
 			}
 		}
 	}
-	v.Close("timeout collector created on n0 replicas, k0 timeouts, membership grows to n1, timeouts one by one, two views; non-trivial = growth with k0 > 0 at or just below the quorum")
+	c20Pairing(v)
+	v.Close("timeout collector created on n0 replicas, k0 timeouts, membership grows to n1, timeouts one by one, two views; non-trivial = growth with k0 > 0 at or just below the quorum | real Synchronizer: sync infos pairing a certificate with exactly k distinct genuine signers with a valid certificate of the other kind, every entry, both timeout rules; non-trivial = k at or just below the quorum")
+}
+
+// ---------------------------------------------------------------------------------------------
+// The threshold inside the pacemaker.  A real Synchronizer (with ViewStates, Authority, Voter, Committer, rules;
+// the world of the C07 harness, c07_test.go, which bin/check C20 injects as well) receives sync infos that PAIR a
+// certificate signed by exactly k distinct members with a fully valid certificate of the other kind:
+//
+//	tc-k    {valid QC for view 2} x {TC with k signers for view w}, w = 1, 2, 3 (below, at, above the QC)
+//	qc-k    {valid TC for view 2} x {QC with k signers for the block of view w}
+//	agg-k   {valid QC for view 2} x {AggregateQC with k reports/signatures for view w}
+//
+// through every entry (NewViewMsg, the sync info of a TimeoutMsg, a ProposeMsg, advanceView directly), under both
+// timeout rules, for every n in the range and every k in 1..n.  The k-signer certificate must take effect iff
+// k >= QuorumSize(n) — observed as "the replica's pacemaker state changed", which the kernel compares with its own
+// quorum function — and neither the replica's HighTC/HighQC nor anything it hands to its Sender may contain a
+// certificate with fewer than QuorumSize(n) distinct signers.
+func c20Pairing(v *verifOut) {
+	s := v.Stream("pairing", "thr_mismatches", 2000)
+	maxN := v.Pick(13, 40)
+	for n := 1; n <= maxN; n++ {
+		scheme := crypto.NameEDDSA
+		if n%4 == 0 && n <= 16 {
+			scheme = crypto.NameECDSA
+		}
+		u := c07NewUniv(scheme, n)
+		q := hotstuff.QuorumSize(n)
+		for _, agg := range []bool{false, true} {
+			for k := 1; k <= n; k++ {
+				kk := fmt.Sprintf("k=%d", k)
+				for _, wv := range []uint64{1, 2, 3} {
+					type fam struct {
+						name    string
+						si      c07SISpec
+						looksAt bool // does this timeout rule look at the k-signer certificate at all?
+					}
+					fams := []fam{
+						{"tc-k", c07SISpec{QC: &c07QCSpec{Kind: "valid", Block: "b2"}, TC: &c07TCSpec{Kind: kk, View: wv}}, true},
+						{"qc-k", c07SISpec{TC: &c07TCSpec{Kind: "valid", View: 2}, QC: &c07QCSpec{Kind: kk, Block: c07Blk(wv)}}, !agg},
+						{"agg-k", c07SISpec{QC: &c07QCSpec{Kind: "valid", Block: "b2"}, Agg: &c07AggSpec{Kind: kk, View: wv}}, agg},
+					}
+					for _, f := range fams {
+						if !f.looksAt {
+							continue
+						}
+						si := f.si
+						entries := []c07Stim{{Op: "newview", SI: &si}, {Op: "adv", SI: &si}}
+						if n >= 2 && si.QC != nil {
+							entries = append(entries, c07Stim{Op: "timeout", View: 1, From: 2, Sig: "ok", SI: &si})
+						}
+						if f.name == "qc-k" {
+							// a proposal carries its QC only: the k-signer QC on its own
+							entries = append(entries, c07Stim{Op: "propose", View: wv + 1, From: 2, Parent: c07Blk(wv), SI: &c07SISpec{QC: si.QC}})
+						}
+						if !v.Thorough() && k != q && k != q-1 && k != n && k != 1 && (k+int(wv))%3 != 0 {
+							entries = entries[:1] // away from the threshold the quick tier uses one entry
+						}
+						for _, st := range entries {
+							w := c07NewWorld(u, agg, 2, c07Opt{stored: c07Stored, remote: c07Remote})
+							before := w.obs()
+							pan := w.apply(st)
+							after := w.obs()
+							accepted := after != before
+							rule := "simple"
+							if agg {
+								rule = "aggregate"
+							}
+							meta := map[string]any{"component": "synchronizer", "family": f.name, "entry": st.Op, "timeout_rule": rule, "scheme": scheme,
+								"n": n, "quorum": q, "k": k, "view_of_k_signer_certificate": wv, "stimulus": st, "before": before.term(), "after": after.term()}
+							v.Seen(fmt.Sprintf("pair/%s/%s/%s/%d/%d/%d", f.name, st.Op, rule, n, k, wv), k == q || k == q-1, meta)
+							v.Count("pairing:" + f.name + ":" + st.Op)
+							if pan != nil {
+								v.Oracle(false, "threshold:synchronizer:panic", fmt.Sprint(pan), meta)
+								continue
+							}
+							v.Case(s, fmt.Sprintf("(%s,%s,%s)", gZ(int64(n)), gZ(int64(k)), gBool(accepted)), meta)
+							switch {
+							case accepted && k < q:
+								v.Oracle(false, "threshold:synchronizer:"+f.name+"-below-quorum-took-effect",
+									fmt.Sprintf("n=%d quorum=%d: a sync info whose %s has only %d distinct signers changed the pacemaker state %s -> %s", n, q, f.name[:len(f.name)-2], k, before.term(), after.term()), meta)
+							case !accepted && k >= q:
+								v.Oracle(false, "threshold:synchronizer:"+f.name+"-at-quorum-rejected",
+									fmt.Sprintf("n=%d quorum=%d: a sync info whose %s has %d distinct signers was not accepted", n, q, f.name[:len(f.name)-2], k), meta)
+							default:
+								v.Oracle(true, "", "", nil)
+							}
+							// what the replica now holds and what it handed on must be backed by a quorum
+							check := append([]hotstuff.SyncInfo{w.vs.SyncInfo()}, w.sent...)
+							okAll, why := true, ""
+							for _, x := range check {
+								if tc, have := x.TC(); have && tc.View() > 0 {
+									if d := c20Distinct(tc.Signature()); d < q || w.auth.VerifyTimeoutCert(tc) != nil {
+										okAll, why = false, fmt.Sprintf("a TC for view %d with %d distinct signers", uint64(tc.View()), d)
+									}
+								}
+								if qc, have := x.QC(); have && qc.BlockHash() != hotstuff.GetGenesis().Hash() {
+									if d := c20Distinct(qc.Signature()); d < q || w.auth.VerifyQuorumCert(qc) != nil {
+										okAll, why = false, fmt.Sprintf("a QC for view %d with %d distinct signers", uint64(qc.View()), d)
+									}
+								}
+							}
+							v.Oracle(okAll, "threshold:synchronizer:"+f.name+"-under-signed-certificate-kept-or-forwarded",
+								fmt.Sprintf("n=%d quorum=%d: after the call the replica's state or a sync info it sent contains %s", n, q, why), meta)
+						}
+					}
+				}
+			}
+		}
+	}
+}
+
+func c20Distinct(sig hotstuff.QuorumSignature) int {
+	if sig == nil {
+		return 0
+	}
+	set := map[hotstuff.ID]bool{}
+	sig.Participants().ForEach(func(id hotstuff.ID) { set[id] = true })
+	return len(set)
 }
